@@ -45,6 +45,7 @@
 package interp
 
 import (
+	"sort"
 	"sync"
 	"fmt"
 	"go/token"
@@ -412,7 +413,52 @@ func visitInstr(fr *frame, instr ssa.Instruction) continuation {
 		}
 
 	case *ssa.Lookup:
-		fr.env[fr.slot(instr)] = lookup(instr, fr.get(instr.X), fr.get(instr.Index))
+		x, idx := fr.get(instr.X), fr.get(instr.Index)
+		if ss, ok := idx.(symStr); ok {
+			if m, ok := x.(map[value]value); ok {
+				// a map keyed by concrete strings, looked up with a string that has symbolic
+				// bytes: decide equality with each key of the same length (sorted order); if
+				// none is equal the lookup misses
+				var keys []string
+				for k := range m {
+					if ks, ok := k.(string); ok && len(ks) == len(ss.b) {
+						keys = append(keys, ks)
+					}
+				}
+				sort.Strings(keys)
+				var hit value = missKey{}
+				for _, k := range keys {
+					if fr.i.decide(strCmp(token.EQL, k, ss)) {
+						hit = k
+						break
+					}
+				}
+				idx = hit
+			}
+		}
+		if sk, ok := idx.(sym); ok {
+			if m, ok := x.(map[value]value); ok {
+				// a map keyed by concrete scalars, looked up with a symbolic scalar: decide
+				// equality with each key (deterministic order); otherwise the lookup misses
+				kt := instr.X.Type().Underlying().(*types.Map).Key()
+				var keys []value
+				for k := range m {
+					if !isSym(k) {
+						keys = append(keys, k)
+					}
+				}
+				sort.Slice(keys, func(a, b int) bool { return fmt.Sprint(keys[a]) < fmt.Sprint(keys[b]) })
+				var hit value = missKey{}
+				for _, k := range keys {
+					if fr.i.decide(symBinop(token.EQL, kt, sk, k)) {
+						hit = k
+						break
+					}
+				}
+				idx = hit
+			}
+		}
+		fr.env[fr.slot(instr)] = lookup(instr, x, idx)
 
 	case *ssa.MapUpdate:
 		m := fr.get(instr.Map)
@@ -894,3 +940,7 @@ func sameValue(a, b value) (eq bool) {
 	}
 	return false
 }
+
+// missKey is a map key that equals no real key (used for lookups with a symbolic
+// string that was decided to differ from every key).
+type missKey struct{}
